@@ -45,7 +45,9 @@ func init() {
 		ID: "C12", Level: "exploration",
 		Batches: []core.Batch{
 			{Name: "create-restore", Engine: store.CheckpointEngine{}, Quick: 5000, Thorough: 60000,
-				Rule: "a run is non-trivial when the tree is non-empty and at least one chunk was created and restored"},
+				Rule: "a run is non-trivial when the tree is non-empty and at least one chunk was created and restored", Weight: 3},
+			{Name: "chainsync", Engine: chain.Engine{Prop: "C12"}, Quick: 400, Thorough: 8000,
+				Rule: "a run is non-trivial when at least three heights were produced and at least one new node joined the running chain by state sync (donor checkpoint through the real ABCI ListSnapshots/LoadSnapshotChunk, joiner through OfferSnapshot/ApplySnapshotChunk with lying peers in between), held exactly the donor's state and replayed the later blocks identically", Weight: 2},
 		},
 		Real:        []string{"storage/mkvs/checkpoint file creator, sequential and parallel chunker (real goroutines), restorer, chunk proof verification", "badger and pathbadger multipart insert on tmpfs directories"},
 		Stub:        []string{"goroutine scheduling of the parallel chunker: a harness scheduler parks every chunk task at verifhook points and releases one at a time in a seeded order", "concurrent RestoreChunk callers are interleaved inline at the restorer hooks", "chunk transport (bytes handed over directly, corrupted by seeded operators)"},
